@@ -1,5 +1,5 @@
 (* C07: concrete plans -- non-vacuity examples and refutation witnesses (all by vm_compute). *)
-From Gv Require Import lib.Bytes lib.Json C02.Model C02.Spec C07.Model C07.Spec.
+From Gv Require Import lib.Bytes lib.Json C02.Model C02.Spec C07.Model C07.ModelPreFix C07.Spec.
 From Coq Require Import String Ascii.
 Open Scope N_scope.
 Open Scope string_scope.
@@ -64,13 +64,14 @@ Example p1_transport :
   r_data (o_resolved (p1_out (fault_at 2 FtTransport))) = bs "{""a"":{""x"":""v""},""l"":[null,null,null]}".
 Proof. vm_compute. split; reflexivity. Qed.
 
-(* errors_nonempty is false for the listed kind "wrong entity count" on a single-entity fetch:
-   `_entities: []` is taken for "entity not found", nothing is reported *)
+(* HISTORICAL (the loader before work/c07_fix_entity-count-ignored.patch, ModelPreFix.v): errors_nonempty was
+   false for the listed kind "wrong entity count" on a single-entity fetch: `_entities: []` was taken for
+   "entity not found", nothing was reported *)
 Lemma errors_nonempty_refuted_proof :
   exists answer root_answer kind_of t root F,
     forallb (fetch_wf kind_of) (fetches_of t) = true /\ root_wf root = true /\
-    (exists rq, In rq (ls_reqs (run answer root_answer kind_of no_faults t)) /\ F (rq_fetch rq) = Some FtCountLess) /\
-    let o := finish root (run answer root_answer kind_of F t) in
+    (exists rq, In rq (ls_reqs (run_v0 answer root_answer kind_of no_faults t)) /\ F (rq_fetch rq) = Some FtCountLess) /\
+    let o := finish root (run_v0 answer root_answer kind_of F t) in
     o_failed o = false /\ o_lerrors o = [] /\ r_errors (o_resolved o) = [].
 Proof.
   exists p1_answer, p1_root_answer, p1_kind, p1_tree, p1_root, (fault_at 1 FtCountLess).
@@ -78,6 +79,9 @@ Proof.
   - eexists. split; [right; left; reflexivity|vm_compute; reflexivity].
   - vm_compute. repeat split.
 Qed.
+(* the repaired loader reports the count error *)
+Example p1_count_less_repaired : List.map le_kind (ls_errors (p1_run (fault_at 1 FtCountLess))) = [LE_COUNT].
+Proof. vm_compute. reflexivity. Qed.
 
 (* ---- plan 2 (@requires through a nullable field): f1 provides a.r, f2 needs it in its representation ---- *)
 Definition p2_f0 := single_fetch 0 "s0" "{a{__typename id}}".
@@ -100,22 +104,28 @@ Example p2_nonnull_subset :
   List.map rq_fetch (ls_reqs (p2_run false (fault_at 1 FtEmpty))) = [0; 1].
 Proof. vm_compute. split; reflexivity. Qed.
 
-(* ... with a nullable one it is sent with "r":null, a representation the fault-free run never sent *)
+(* HISTORICAL (before work/c07_fix_nullable-requires-null-sent.patch): with a nullable one it was sent with
+   "r":null, a representation the fault-free run never sent, because only a transport error skipped dependants *)
 Lemma requests_subset_refuted_proof :
   exists answer root_answer kind_of t F,
     forallb (fetch_wf kind_of) (fetches_of t) = true /\
     (forall id k, F id = Some k -> loud (kind_of id) k = true) /\
-    requests_subset_b (ls_reqs (run answer root_answer kind_of no_faults t)) (ls_reqs (run answer root_answer kind_of F t)) = false.
+    requests_subset_b (ls_reqs (run_v0 answer root_answer kind_of no_faults t)) (ls_reqs (run_v0 answer root_answer kind_of F t)) = false.
 Proof.
   exists p2_answer, p2_root_answer, p2_kind, (p2_tree true), (fault_at 1 FtEmpty).
   split; [vm_compute; reflexivity|]. split.
   - intros id k H. unfold fault_at in H. destruct (N.eqb id 1) eqn:E; [|discriminate]. inversion H. apply N.eqb_eq in E. subst. reflexivity.
   - vm_compute. reflexivity.
 Qed.
-Example p2_nullable_request :
-  List.map (fun rq => (rq_fetch rq, rq_reps rq)) (ls_reqs (p2_run true (fault_at 1 FtEmpty))) =
+Example p2_nullable_request_v0 :
+  List.map (fun rq => (rq_fetch rq, rq_reps rq)) (ls_reqs (run_v0 p2_answer p2_root_answer p2_kind (fault_at 1 FtEmpty) (p2_tree true))) =
   [(0, []); (1, [bs "{""__typename"":""A"",""id"":""1""}"]); (2, [bs "{""__typename"":""A"",""id"":""1"",""r"":null}"])].
 Proof. vm_compute. reflexivity. Qed.
+(* the repaired loader skips the dependant after any failure of the provider *)
+Example p2_nullable_repaired :
+  List.map rq_fetch (ls_reqs (p2_run true (fault_at 1 FtEmpty))) = [0; 1] /\
+  requests_subset_b (ls_reqs (p2_run true no_faults)) (ls_reqs (p2_run true (fault_at 1 FtEmpty))) = true.
+Proof. vm_compute. split; reflexivity. Qed.
 
 (* ---- plan 3: a subgraph body with NaN (astjson parses it as a number) is rendered verbatim ---- *)
 Definition p3_f0 := single_fetch 0 "s0" "{d}".
@@ -125,16 +135,21 @@ Definition p3_root_answer (id : N) : json * list json := (JObj [(bs "d", JNum (b
 Definition p3_out (F : N -> option fault) : outcome :=
   finish p3_root (run (fun _ _ => (JNull, [])) p3_root_answer (fun _ => FSingle) F p3_tree).
 
+(* HISTORICAL (before work/c07_fix_nan-accepted.patch) *)
 Lemma valid_json_refuted_proof :
   exists root_answer t root F,
     root_wf root = true /\
-    let o := finish root (run (fun _ _ => (JNull, [])) root_answer (fun _ => FSingle) F t) in
+    let o := finish root (run_v0 (fun _ _ => (JNull, [])) root_answer (fun _ => FSingle) F t) in
     o_failed o = false /\ o_lerrors o = [] /\ r_errors (o_resolved o) = [] /\
     r_data (o_resolved o) = [123; 34; 100; 34; 58; 78; 97; 78; 125].      (* {"d":NaN} *)
 Proof.
   exists p3_root_answer, p3_tree, p3_root, (fault_at 0 FtNaNData).
   split; [vm_compute; reflexivity|]. vm_compute. repeat split.
 Qed.
+(* the repaired loader takes the body for invalid JSON: an error, data null (d is non-null) *)
+Example p3_nan_repaired :
+  List.map le_kind (o_lerrors (p3_out (fault_at 0 FtNaNData))) = [LE_INVALID] /\ r_data (o_resolved (p3_out (fault_at 0 FtNaNData))) = b_null.
+Proof. vm_compute. split; reflexivity. Qed.
 
 (* ---- plan 4: two entity fetches at the same object both select the object field p; subgraph s1
    answers p:null (with an error), s2 answers an object.  MergeValues(null, object) fails, so when
